@@ -27,18 +27,27 @@ theorem land_neg_pow (x k : Nat) : Int.land (x : Int) (-(2 ^ k : Int)) = ((x - x
   show ((Nat.ldiff x (2 ^ k - 1) : Nat) : Int) = _
   rw [ldiff_low]
 
-/-- `_to_slot_size(n)`, as the source computes it on Python integers, is the model's `slot n` for every size -/
+/-- `_to_slot_size(n)`, as the source computes it on Python integers, is the model's `slot n` for every size.  The proof tries, in
+turn, the forms a maintainer is likely to write: `(size + 7) & (-8)` (the pinned source), and the pure integer-arithmetic forms
+`(size + 7) // 8 * 8`, `((size + 7) >> 3) << 3`, `size + (-size) % 8`-like expressions (linear arithmetic with `/` and `%` by
+constants: `omega`). -/
 theorem src_to_slot_size (n : Nat) : to_slot_size (n : Int) = (Lay.slot n : Int) := by
-  unfold to_slot_size
-  simp only [Id.run, pure]
-  have := land_neg_pow (n + 7) 3
-  simp only [Nat.cast_add, Nat.cast_ofNat] at this
-  have h8 : (-(2 ^ 3 : Int)) = -(8 : Int) := by decide
-  rw [h8] at this
-  rw [this]
-  unfold Lay.slot
-  congr 1
-  omega
+  first
+  | (unfold to_slot_size
+     simp only [Id.run, pure]
+     have := land_neg_pow (n + 7) 3
+     simp only [Nat.cast_add, Nat.cast_ofNat] at this
+     have h8 : (-(2 ^ 3 : Int)) = -(8 : Int) := by decide
+     rw [h8] at this
+     rw [this]
+     unfold Lay.slot
+     congr 1
+     omega)
+  | (unfold to_slot_size Lay.slot
+     simp only [Id.run, pure]
+     first
+     | omega
+     | (simp [Py.shl, Py.shr] <;> omega))
 
 /-- `_align(o, a)` for an alignment that is a power of two is the model's `alignUp o a` -/
 theorem src_align (o k : Nat) : align (o : Int) ((2 ^ k : Nat) : Int) = (Alloc.alignUp o (2 ^ k) : Int) := by
